@@ -135,7 +135,10 @@ namespace igris
 
         void load_history_line()
         {
-            _lastsize = _line.current_size();
+            // Distance from the start of the replaced line to the terminal
+            // cursor: the terminal moves left by this amount and erases to
+            // the end of line.
+            _lastsize = _line.current_size() - _line.rightsize();
 
             if (_curhist == 0)
             {
